@@ -227,8 +227,11 @@ pub fn castle_theme() -> impl Strategy<Value = RawPos> {
         0u8..64,                                        // enemy king
         any::<bool>(),                                  // both sides set up at home
         0u8..16,                                        // rights mask to keep
+        // 0 none; 1/2: an enemy pawn on the 7th next to the a-/h-rook (it can take the rook
+        // and promote); 3..: the enemy has just made a double step on file (x - 3)
+        0u8..11,
     )
-        .prop_map(|(white, aim, at, sel, extras, ek, both, keep)| {
+        .prop_map(|(white, aim, at, sel, extras, ek, both, keep, pawn)| {
             let base: u8 = if white { 0 } else { 56 };
             let mut items = vec![(base, 3u8, white), (base + 7, 3u8, white)];
             let targets = [base + 4, base + 5, base + 6, base + 3, base + 2, base + 1];
@@ -249,14 +252,33 @@ pub fn castle_theme() -> impl Strategy<Value = RawPos> {
                 items.push((ob, 3, !white));
                 items.push((ob + 7, 3, !white));
             }
+            let mut ep_file = None;
+            match pawn {
+                1 | 2 => {
+                    // enemy pawn one step from promotion, diagonally in front of a corner rook;
+                    // the enemy is to move in half of the cases (see white_to_move below)
+                    let f: u8 = if pawn == 1 { 1 } else { 6 };
+                    let r: u8 = if white { 1 } else { 6 };
+                    items.push((r * 8 + f, 0, !white));
+                }
+                3..=10 => {
+                    let f = pawn - 3;
+                    let r: u8 = if white { 4 } else { 3 };
+                    items.push((r * 8 + f, 0, !white));
+                    ep_file = Some(f);
+                }
+                _ => {}
+            }
             items.extend(extras);
+            // with a promoting enemy pawn the enemy moves first in half of the cases
+            let mover_white = if (pawn == 1 || pawn == 2) && sel & 1 == 1 { !white } else { white };
             RawPos {
                 wk,
                 bk,
                 items,
-                white_to_move: white,
+                white_to_move: mover_white,
                 rights: if keep == 0 { 15 } else { keep | if white { WK | WQ } else { BK | BQ } },
-                ep_file: None,
+                ep_file,
                 half: 0,
             }
         })
@@ -456,7 +478,7 @@ pub fn pin_check_theme() -> impl Strategy<Value = RawPos> {
         any::<bool>(),
         0u8..64,                                                    // mover's king
         prop::collection::vec((0u8..8, 1u8..6, 0u8..5, 1u8..6), 1..4), // (direction, dist to own piece, own piece type, dist beyond)
-        prop::collection::vec((1u8..5, any::<u16>()), 0..3),         // direct checkers (type, origin selector)
+        prop::collection::vec((0u8..5, any::<u16>()), 0..3),         // direct checkers incl. pawns (type, origin selector)
         0u8..64,
         prop::collection::vec(item(), 0..8),
         prop::option::weighted(0.2, 0u8..8),
@@ -502,7 +524,7 @@ pub fn cage_theme() -> impl Strategy<Value = RawPos> {
         any::<bool>(),                 // side to move is the caged one
         any::<bool>(),                 // caged king is white
         0u8..28,                       // edge square index
-        prop::collection::vec((-2i8..=2, -2i8..=2, 1u8..5), 1..4), // attackers near the king
+        prop::collection::vec((-2i8..=2, -2i8..=2, 0u8..5), 1..4), // attackers near the king (incl. pawns)
         (-3i8..=3, -3i8..=3),          // attacking king offset
         prop::collection::vec((-1i8..=1, -1i8..=1, 0u8..4), 0..3), // own blockers around the king
         prop::collection::vec(item(), 0..3),
@@ -776,6 +798,15 @@ pub const EXTRA_SEEDS: [&str; 8] = [
     "4k3/pppppppp/8/PPPPPPPP/pppppppp/8/PPPPPPPP/4K3 w - - 0 1",
     // knights and rooks able to reach the same squares
     "4k3/8/8/8/2N3N1/8/R6R/2N1K1N1 w - - 0 1",
+];
+
+/// Mutual fortresses: both sides have exactly one legal move, for ever (the kings shuffle
+/// between two squares, everything else is blocked). Forced lines of unbounded length.
+pub const FORCED_SEEDS: [&str; 4] = [
+    "5b1k/4p1p1/4P1P1/8/8/1p1p4/1P1P4/K1B5 w - - 0 1",
+    "5b1k/4p1p1/4P1P1/8/8/1p1p4/1P1P4/K1B5 b - - 0 1",
+    "k1b5/1p1p4/1P1P4/8/8/4p1p1/4P1P1/5B1K w - - 0 1",
+    "k1b5/1p1p4/1P1P4/8/8/4p1p1/4P1P1/5B1K b - - 0 1",
 ];
 
 pub fn seed_fen() -> BoxedStrategy<String> {
